@@ -6,7 +6,7 @@ WIT = ["priority_pair_checked", "id_tiebreak_in_round", "time_priority_in_round"
 RULE = ("every operation history over the alphabet (clock step, limit/market submissions with and without time-to-live, "
         "cancels of live and dead orders, matching round, running switch) up to the stated depth from the empty book and "
         "from each seed book, in continuous and in batch mode, executed on a real Market; per round no lower-priority order is filled while a higher-priority one keeps volume (priority key computed by the monitor), in every state the best order of each side is the key minimum, the comparison operators agree with the key on every pair of resting orders, and popping a copy of the queue yields priority order; "
-        "distinct = canonical market states")
+        "plus the deep one-sided book grids (every arrival order of 5-7 levels x cancels x sweeps; every heap layout of 9-10 (thorough: 11) levels x a sweep of k levels followed by one round per remaining level); distinct = canonical market states")
 
 
 def factory():
@@ -99,7 +99,7 @@ def _comparator_fn(case, wit):
 
 
 def run(tier, seed):
-    res = run_generic("C02", tier, seed, factory, WIT, RULE)
+    res = run_generic("C02", tier, seed, factory, WIT, RULE, layouts=True)
     from ..enum_f import run_grid
     ev0, dn0 = res.coverage["evaluations"], res.coverage["distinct_nontrivial"]
     global _DOMAIN_PRICES
@@ -115,7 +115,7 @@ def run(tier, seed):
 
 
 def replay(payload):
-    if payload.get("engine") == "F" and payload.get("grid") != "deep_one_sided_books":
+    if payload.get("engine") == "F" and payload.get("grid") not in ("deep_one_sided_books", "heap_layouts"):
         from ..common import Violation, Counter
         try:
             comparator_fn(tuple(payload["case"]), Counter())
